@@ -607,11 +607,13 @@ func runSched(c caseIn) *caseOut {
 		r.ctxs = append(r.ctxs, &tctx{client: int64(t.Client), faults: append([]bool(nil), t.Faults...)})
 		results[i] = [][]int{}
 	}
+	launch := make([]func(), n)
 	for i, t := range c.Threads {
 		st := &gstore{r: r, idx: i, api: api, split: split}
 		repo := repos.NewHTTPDomainMappingRepository(repos.NewRepository(st), c.Bases)
 		mod := newModule(ctx, repo, reg, cloud, c.Bases)
-		go func(i int, t thrIn, st *gstore) {
+		i, t := i, t
+		launch[i] = func() {
 			defer close(done[i])
 			tc := r.ctxs[i]
 			var held []*repos.HTTPDomainMapping
@@ -684,7 +686,7 @@ func runSched(c caseIn) *caseOut {
 					results[i] = append(results[i], []int{4})
 				}
 			}
-		}(i, t, st)
+		}
 	}
 	// scheduler (as in verif_c15)
 	parked := make([]bool, n)
@@ -703,10 +705,11 @@ func runSched(c caseIn) *caseOut {
 			}
 		}
 	}
-	for i := 0; i < n && blocked == ""; i++ {
+	for i := 0; i < n && blocked == ""; i++ { // start the callers one at a time: each runs up to its first storage call
 		r.mu.Lock()
 		r.cur = i
 		r.mu.Unlock()
+		go launch[i]()
 		settle(i)
 	}
 	stepOne := func(i int) {
